@@ -1,4 +1,5 @@
 import KoordVerif.Common.Proto
+import KoordVerif.Model.C19DevVF
 /-
 C19 (deviceshare part): model of the per-node device ledger of the scheduler's deviceshare plugin,
 as it is driven by Reserve/Unreserve and by the pod informer handlers, and of the rebuild of a
@@ -30,6 +31,10 @@ Quirks kept as written:
     total - used clamped at 0 (resetDeviceFree); since every write to deviceUsed[type] is followed
     by resetDeviceFree(type) under the same lock, the model derives free from total and used.
   * onPodUpdate(old, new) with both annotated = remove(old allocation) then add(new allocation).
+
+The VF ledger (nodeDevice.vfAllocations) lives in Model/C19DevVF.lean; section "pairing with the VF
+ledger" below runs it next to `St` under the SAME isValid guard (updateCacheVFAllocations is called
+at the end of updateDeviceUsed), and the sub-driver at the end of this file runs the paired model.
 -/
 namespace KoordVerif.C19.Dev
 open KoordVerif.Proto
@@ -146,6 +151,72 @@ def liveStep (L : List Group) : Ev → List Group
 
 def survivors (h : List Ev) : List Group := h.foldl liveStep []
 
+/-! ### pairing with the VF ledger (Model/C19DevVF.lean) -/
+
+/-- a group together with the `Extension.VirtualFunctions` of its DeviceAllocations: one entry
+    (minor, bus ids) per allocation in list order, `[]` for an allocation without VFs -/
+structure VGroup where
+  g : Group
+  vfs : List VItem
+deriving DecidableEq, Repr
+
+def VGroup.key (v : VGroup) : GKey := v.g.key
+
+/-- what the allocation holds in the VF ledger (after getVFAllocations) -/
+def VGroup.ents (v : VGroup) : List VEnt := vfEnts v.g.node v.g.ty v.vfs
+
+structure StV where
+  st : St
+  vf : VFTab
+deriving Repr
+
+def StV.init (total : Tab) : StV := { st := St.init total, vf := [] }
+
+/-- device_cache.go updateCacheUsed(add = true) for one device type, with the VF bookkeeping:
+    isValid guard, updateDeviceUsed (ends with updateCacheVFAllocations -> updateVFAllocations),
+    updateAllocateSet.  A skipped add does not touch the VF ledger either. -/
+def addGroupV (s : StV) (v : VGroup) : StV :=
+  if recorded s.st.aset v.g.key then s else
+  { st := addGroup s.st v.g, vf := vfAdd v.g.node v.g.ty s.vf v.vfs }
+
+/-- device_cache.go updateCacheUsed(add = false) for one device type, with the VF bookkeeping: the
+    VFs removed are those CARRIED BY THE EVENT. -/
+def rmGroupV (s : StV) (v : VGroup) : StV :=
+  if recorded s.st.aset v.g.key then
+    { st := rmGroup s.st v.g, vf := vfRemove v.g.node v.g.ty s.vf v.vfs }
+  else s
+
+inductive VEv where
+  | add (v : VGroup)
+  | del (v : VGroup)
+  | upd (v : VGroup)
+deriving Repr
+
+def VEv.grp : VEv → VGroup
+  | .add v => v | .del v => v | .upd v => v
+
+/-- forgetting the VFs -/
+def VEv.ev : VEv → Ev
+  | .add v => .add v.g | .del v => .del v.g | .upd v => .upd v.g
+
+def stepV (s : StV) : VEv → StV
+  | .add v => addGroupV s v
+  | .del v => rmGroupV s v
+  | .upd v => addGroupV (rmGroupV s v) v
+
+def runV (s : StV) (h : List VEv) : StV := h.foldl stepV s
+
+/-- a fresh cache fed one add event per allocation -/
+def buildV (total : Tab) (l : List VGroup) : StV := l.foldl addGroupV (StV.init total)
+
+/-- what the API server holds (as `liveStep`, with the VFs) -/
+def vliveStep (L : List VGroup) : VEv → List VGroup
+  | .add v => if L.any (fun x => x.key = v.key) then L else L ++ [v]
+  | .del v => L.filter (fun x => x.key ≠ v.key)
+  | .upd v => L.filter (fun x => x.key ≠ v.key) ++ [v]
+
+def vsurvivors (h : List VEv) : List VGroup := h.foldl vliveStep []
+
 /-! ### observations (value based) -/
 
 def usedAt (st : St) (k : Slot) : Int := get st.used k
@@ -202,18 +273,27 @@ def render (un : Univ) (st : St) : List String :=
       | none => none)
   ++ ["end"]
 
-/-! ### driver: op lines of one case -/
+/-! ### driver: op lines of one case
+
+  dev inv <node> <ty> <minor> <t0> <t1> <t2>
+  dev pod <p> <node> <n> (<ty> <minor> <nres> (<dim> <amt>)^nres)^n [(<nvf> <bus>^nvf)^n]
+        the optional tail lists the VirtualFunctions (bus ids) of the n allocations in the same order;
+        without it no allocation has VFs
+  dev add <p> <via> | dev del <p> <via> | dev upd <p>      live cache, each followed by a block
+  dev fresh | dev radd <p> | dev rupd <p> | dev rdel <p> | dev rend     fresh cache, block at rend
+  block: `u`/`f`/`p`/`a` lines (render), `vf <node> <ty> <minor> <bus>*` lines (vfRender), `end`
+-/
 
 structure Pod where
   id : Int
-  groups : List Group
+  groups : List VGroup
 
 structure Drv where
   inv : Tab := []
   pods : List Pod := []
-  live : St := St.init []
+  live : StV := StV.init []
   liveStarted : Bool := false
-  fresh : St := St.init []
+  fresh : StV := StV.init []
   out : List String := []
 
 def parseRL : Nat → List Int → Option (RL × List Int)
@@ -224,16 +304,27 @@ def parseRL : Nat → List Int → Option (RL × List Int)
     | none => none
   | _, _ => none
 
-def parseItems : Nat → List Int → Option (List (Int × Item))
-  | 0, [] => some []
-  | 0, _ => none
+/-- n allocations `<ty> <minor> <nres> (<dim> <amt>)^nres`, returns the unread tail -/
+def parseItemsR : Nat → List Int → Option (List (Int × Item) × List Int)
+  | 0, rest => some ([], rest)
   | n+1, ty :: minor :: nres :: rest =>
     if nres < 0 then none else
     match parseRL nres.toNat rest with
     | some (rl, rest') =>
-      match parseItems n rest' with
-      | some more => some ((ty, (minor, rl)) :: more)
+      match parseItemsR n rest' with
+      | some (more, tail) => some ((ty, (minor, rl)) :: more, tail)
       | none => none
+    | none => none
+  | _, _ => none
+
+/-- n bus-id lists `<nvf> <bus>^nvf`, nothing may follow -/
+def parseVFs : Nat → List Int → Option (List (List Int))
+  | 0, [] => some []
+  | 0, _ => none
+  | n+1, nvf :: rest =>
+    if nvf < 0 ∨ rest.length < nvf.toNat then none else
+    match parseVFs n (rest.drop nvf.toNat) with
+    | some more => some (rest.take nvf.toNat :: more)
     | none => none
   | _, _ => none
 
@@ -249,8 +340,16 @@ def mkGroups (pod node : Int) (items : List (Int × Item)) : List Group :=
   (dedupInts (items.map (·.1))).map fun ty =>
     { node := node, ty := ty, pod := pod, items := (items.filter (fun x => x.1 = ty)).map (·.2) }
 
+/-- `DeviceAllocations[type]` per type (first-occurrence order of the types), each allocation with
+    its bus-id list -/
+def mkVGroups (pod node : Int) (items : List ((Int × Item) × List Int)) : List VGroup :=
+  (dedupInts (items.map (·.1.1))).map fun ty =>
+    let mine := items.filter (fun x => x.1.1 = ty)
+    { g := { node := node, ty := ty, pod := pod, items := mine.map (·.1.2) },
+      vfs := mine.map fun x => (x.1.2.1, x.2) }
+
 def Drv.univ (d : Drv) : Univ :=
-  let gs := d.pods.flatMap (·.groups)
+  let gs := d.pods.flatMap (fun p => p.groups.map (·.g))
   let slotKeys := d.inv.map (fun e => [e.1.1, e.1.2.1, e.1.2.2.1, e.1.2.2.2])
     ++ gs.flatMap (fun g => g.items.flatMap fun it => it.2.map fun e => [g.node, g.ty, it.1, e.1])
   let gk := gs.map fun g => [g.node, g.ty, g.pod]
@@ -265,7 +364,22 @@ def Drv.univ (d : Drv) : Univ :=
       | [a, b, c, m, e] => some ((a, b, c), m, e)
       | _ => none }
 
-def Drv.podGroups (d : Drv) (p : Int) : Option (List Group) :=
+def Drv.vuniv (d : Drv) : VUniv :=
+  let vs := d.pods.flatMap (·.groups)
+  let ks := vs.flatMap fun v => v.vfs.map fun it => [v.g.node, v.g.ty, it.1]
+  let bs := vs.flatMap fun v => v.vfs.flatMap fun it => it.2.map fun b => [b]
+  { keys := (sortDedup ks).filterMap fun
+      | [a, b, c] => some (a, b, c)
+      | _ => none
+    buses := (sortDedup bs).filterMap fun
+      | [b] => some b
+      | _ => none }
+
+/-- one observation block -/
+def Drv.block (d : Drv) (s : StV) : List String :=
+  (render d.univ s.st).dropLast ++ vfRender d.vuniv s.vf ++ ["end"]
+
+def Drv.podGroups (d : Drv) (p : Int) : Option (List VGroup) :=
   match d.pods.find? (fun x => x.id = p) with
   | some x => some x.groups
   | none => none
@@ -274,20 +388,20 @@ def Drv.bad (d : Drv) : Drv := { d with out := d.out ++ ["bad-op"] }
 
 /-- the live cache gets its inventory (updateNodeDevice) before the first live op -/
 def Drv.startLive (d : Drv) : Drv :=
-  if d.liveStarted then d else { d with live := St.init d.inv, liveStarted := true }
+  if d.liveStarted then d else { d with live := StV.init d.inv, liveStarted := true }
 
-def Drv.liveOp (d : Drv) (p : Int) (mk : List Group → List Ev) : Drv :=
+def Drv.liveOp (d : Drv) (p : Int) (mk : List VGroup → List VEv) : Drv :=
   match d.podGroups p with
   | none => d.bad
   | some gs =>
     let d := d.startLive
-    let st := run d.live (mk gs)
-    { d with live := st, out := d.out ++ render d.univ st }
+    let s := runV d.live (mk gs)
+    { d with live := s, out := d.out ++ d.block s }
 
-def Drv.freshOp (d : Drv) (p : Int) (mk : List Group → List Ev) : Drv :=
+def Drv.freshOp (d : Drv) (p : Int) (mk : List VGroup → List VEv) : Drv :=
   match d.podGroups p with
   | none => d.bad
-  | some gs => { d with fresh := run d.fresh (mk gs) }
+  | some gs => { d with fresh := runV d.fresh (mk gs) }
 
 def stepLine (d : Drv) (line : String) : Drv :=
   match toks line with
@@ -303,36 +417,45 @@ def stepLine (d : Drv) (line : String) : Drv :=
     match ints? rest with
     | some (p :: node :: n :: more) =>
       if n < 0 ∨ (d.podGroups p).isSome then d.bad else
-      match parseItems n.toNat more with
-      | some items =>
-        if items.all (fun x => itemOK x.2) then
-          { d with pods := d.pods ++ [{ id := p, groups := mkGroups p node items }] }
-        else d.bad
+      match parseItemsR n.toNat more with
+      | some (items, tail) =>
+        let vfs? := if tail.isEmpty then some (items.map fun _ => []) else parseVFs n.toNat tail
+        match vfs? with
+        | some vfs =>
+          if items.all (fun x => itemOK x.2) && vfs.all (fun l => l.all (fun b => decide (0 ≤ b))) then
+            { d with pods := d.pods ++ [{ id := p, groups := mkVGroups p node (items.zip vfs) }] }
+          else d.bad
+        | none => d.bad
       | none => d.bad
     | _ => d.bad
   | ["dev", "add", p, via] =>
     match int? p, int? via with
-    | some p, some v => if v < 0 ∨ v > 2 then d.bad else d.liveOp p (fun gs => gs.map Ev.add)
+    | some p, some v => if v < 0 ∨ v > 2 then d.bad else d.liveOp p (fun gs => gs.map VEv.add)
     | _, _ => d.bad
   | ["dev", "del", p, via] =>
     match int? p, int? via with
-    | some p, some v => if v < 0 ∨ v > 3 then d.bad else d.liveOp p (fun gs => gs.map Ev.del)
+    | some p, some v => if v < 0 ∨ v > 3 then d.bad else d.liveOp p (fun gs => gs.map VEv.del)
     | _, _ => d.bad
   | ["dev", "upd", p] =>
     match int? p with
     -- updatePod: updateCacheUsed(old, remove) over all types, then updateCacheUsed(new, add)
-    | some p => d.liveOp p (fun gs => gs.map Ev.del ++ gs.map Ev.add)
+    | some p => d.liveOp p (fun gs => gs.map VEv.del ++ gs.map VEv.add)
     | none => d.bad
-  | ["dev", "fresh"] => { d with fresh := St.init d.inv }
+  | ["dev", "fresh"] => { d with fresh := StV.init d.inv }
   | ["dev", "radd", p] =>
     match int? p with
-    | some p => d.freshOp p (fun gs => gs.map Ev.add)
+    | some p => d.freshOp p (fun gs => gs.map VEv.add)
     | none => d.bad
   | ["dev", "rupd", p] =>
     match int? p with
-    | some p => d.freshOp p (fun gs => gs.map Ev.del ++ gs.map Ev.add)
+    | some p => d.freshOp p (fun gs => gs.map VEv.del ++ gs.map VEv.add)
     | none => d.bad
-  | ["dev", "rend"] => { d with out := d.out ++ render d.univ d.fresh }
+  | ["dev", "rdel", p] =>
+    match int? p with
+    -- a (late / stale) delete event delivered to the fresh cache
+    | some p => d.freshOp p (fun gs => gs.map VEv.del)
+    | none => d.bad
+  | ["dev", "rend"] => { d with out := d.out ++ d.block d.fresh }
   | _ => d.bad
 
 def runCase (lines : List String) : List String := (lines.foldl stepLine {}).out
